@@ -77,9 +77,9 @@ Record RInv (c : rl_cfg) (t : Z) (s : rl_state) : Prop := {
   ri_reqs_sorted : StronglySorted Z.le (fst s);
   (* what the list will give at any later call *)
   ri_future : forall now, t <= now -> drop_expired (now - r_rate c) (fst s) = filter (recent c now) (snd s);
-  (* for a positive rate the list is exactly the admitted instants within (t - rate, t] *)
+  (* for a positive rate the list is exactly the granted instants within (t - rate, t] *)
   ri_exact : 0 < r_rate c -> fst s = filter (recent c t) (snd s);
-  (* every half-open window of length rate holds at most limit admitted instants *)
+  (* every half-open window of length rate holds at most limit granted instants *)
   ri_window : forall w, rl_len (filter (in_window c w) (snd s)) <= Z.max 0 (r_limit c)
 }.
 
